@@ -19,6 +19,11 @@ def gen_def(rng):
     cmds, counter = [], [0]
 
     def fields(size, tag):
+        if size >= 3 and rng.random() < 0.3:
+            # reserved bits at the top: the fields end BELOW the declared size; the transfer is still the declared size
+            # (seed C09-6 sized the field set by its highest field end)
+            top = rng.choice([1, size // 2, size - 1, max(1, size - 8)])
+            return [adef.mk_field(f"r{tag}{counter[0]}", "uint", 0, min(top, 64))]
         if rng.random() < 0.5 or size < 2:
             return [adef.mk_field(f"v{tag}{counter[0]}", "uint" if size <= 64 else "uint", 0, min(size, 64))]
         cut = rng.randrange(1, size)
